@@ -2,6 +2,7 @@
 pub mod bundled;
 pub mod corpus;
 pub mod dsp;
+pub mod engine_case;
 pub mod engine_util;
 pub mod hts_reader;
 pub mod props;
